@@ -10,7 +10,7 @@ for k in "${names[@]}"; do
   git -C /repo worktree remove --force $wt >/dev/null 2>&1
   git -C /repo worktree add --detach $wt HEAD >/dev/null 2>&1
   ( cd $wt && git apply /verif/refactors/$k/patch.diff ) || { echo "$k: patch does not apply"; continue; }
-  ( mkdir -p /tmp/vrf-$k && cp /verif/known_findings.json /tmp/vrf-$k/ && /verif/bin/saocheck -p all -repo $wt -verif /tmp/vrf-$k > /root/vmlog/rf-$k.log 2>&1; echo "$k exit=$? viol=$(grep -c '^VIOLATION' /root/vmlog/rf-$k.log) und=$(grep -c '^UNDECIDED' /root/vmlog/rf-$k.log)"; git -C /repo worktree remove --force $wt >/dev/null 2>&1; rm -rf /tmp/vrf-$k ) &
+  ( mkdir -p /tmp/vrf-$k && cp /verif/known_findings.json /tmp/vrf-$k/ && /verif/bin/saocheck -p all -repo $wt -verif /tmp/vrf-$k > /root/vmlog/rf-$k.log 2>&1; echo "$k exit=$? viol=$(grep -c '^VIOLATION' /root/vmlog/rf-$k.log) und=$(grep -c '^UNDECIDED' /root/vmlog/rf-$k.log) known=$(grep -c '^KNOWN-FINDING' /root/vmlog/rf-$k.log)"; git -C /repo worktree remove --force $wt >/dev/null 2>&1; rm -rf /tmp/vrf-$k ) &
 done
 wait
 git -C /repo worktree prune
